@@ -99,6 +99,22 @@ async fn run(mut sim: Sim, seed: u64, lossy: bool) -> Result<Value, String> {
         });
     }
 
+    // the dialer's known-peer table must not matter to what an explicit dial accepts, and a
+    // background dial names the identity it is after: entries that are right (X at X's address),
+    // wrong (Y on file at X's address) and an absent identity (the adversary's, High affinity) on
+    // file at an address where an honest node answers - that dial must fail every time
+    let known_mode = sim.rng.gen_range(0..4);
+    if known_mode > 0 {
+        use anemo::types::{PeerAffinity, PeerInfo};
+        let (ax, ay) = (sim.addr(x), sim.addr(y));
+        sim.known_insert(d, PeerInfo { peer_id: sim.peer_id(x), affinity: PeerAffinity::Allowed, address: vec![ax.into()] });
+        let y_addr = if known_mode == 2 { ax } else { ay };
+        sim.known_insert(d, PeerInfo { peer_id: sim.peer_id(y), affinity: PeerAffinity::Allowed, address: vec![y_addr.into()] });
+        if known_mode == 3 {
+            sim.known_insert(d, PeerInfo { peer_id: sim::peer_id_of(&e_key), affinity: PeerAffinity::High, address: vec![ax.into(), ay.into()] });
+        }
+    }
+
     // the dialer's own address is a target too (self-dial, pinned to itself or not)
     let targets = [sim.addr(x), sim.addr(y), addr1, addr2, sim.addr(d), addr3];
     let pins = [Some(sim.peer_id(x)), None, Some(sim.peer_id(y)), Some(sim::peer_id_of(&e_key)), Some(sim.peer_id(d))];
